@@ -545,4 +545,396 @@ theorem repay_all_step {b b' : Bank} {x x' : Balance} {now amt : Int}
   rw [e1, e2]
   omega
 
+
+/-- **collect_step**: fee collection moves whole tokens out of the vault and reduces the buckets by exactly
+    the same amounts: the slack is unchanged. -/
+theorem collect_step {b : Bank} {v : Int} {c : Collected} (h : collectFees b.feeI b.feeG b.feeP v = .ok c) :
+    slack (v - (c.toInsurance + c.toGroup + c.toProgram)) { b with feeI := c.feeI, feeG := c.feeG, feeP := c.feeP } = slack v b := by
+  obtain ⟨_, _, _, e4, e5, e6, _⟩ := Mfi.Props.C19.collect_exact h
+  unfold slack claims
+  simp only
+  rw [e4, e5, e6]
+  ring
+
+/-- **bankruptcy_step**: unless the bank is wiped out (the sanctioned exception), a settlement raises the
+    claims by at most the covered part of the bad debt, which the insurance transfer (rounded up) pays
+    into the vault: the slack does not fall. -/
+theorem bankruptcy_step {b : Bank} {bal : Balance} {avail now : Int} {o : BankruptcyOut}
+    (h : settleBankruptcy b bal avail now = .ok o) (ha : 0 ≤ avail) (hsa : 0 ≤ b.sa) (hasv : 0 ≤ b.asv)
+    (hlsv : 0 ≤ b.lsv) (hl : 0 ≤ bal.l) (hnk : o.kill = false) :
+    claims o.bank ≤ claims b + o.coveredUp * ONE * ONE := by
+  obtain ⟨hb, hbad, _, esoc, hsoc0, _, hup, _, _, b1, hs, hi⟩ := Mfi.Props.C07.settle_spec h ha
+  have hONE := ONE_pos
+  obtain ⟨eb1, hcase⟩ := Mfi.Props.C07.socialize_spec hs hsoc0 hsa hasv
+  rcases hcase with ⟨_, _, hk⟩ | ⟨_, _, h0, _, _, hle, _⟩
+  · rw [hnk] at hk; cases hk
+  · have hb1 : b1.lsv = b.lsv ∧ b1.sa = b.sa ∧ b1.sl = b.sl ∧ b1.feeI = b.feeI ∧ b1.feeG = b.feeG ∧ b1.feeP = b.feeP := by
+      rw [eb1]; exact ⟨rfl, rfl, rfl, rfl, rfl, rfl⟩
+    have hbadn : 0 ≤ o.badDebt := by
+      have : (0 : Int) ≤ ZERO_AMOUNT_THRESHOLD := by decide
+      omega
+    have hstep := increase_step hi h0 (by rw [hb1.1]; exact hlsv) hbadn hl
+    have tl : b.sa * b.asv / ONE * ONE ≤ b.sa * b.asv := Int.ediv_mul_le _ (by omega)
+    have hc1 : claims b1 ≤ claims b - o.socialized * ONE := by
+      unfold claims
+      rw [hb1.1, hb1.2.1, hb1.2.2.1, hb1.2.2.2.1, hb1.2.2.2.2.1, hb1.2.2.2.2.2]
+      have e : (b.sa * b.asv / ONE - o.socialized) * ONE = b.sa * b.asv / ONE * ONE - o.socialized * ONE := Int.sub_mul _ _ _
+      omega
+    have e2 : (o.badDebt - o.covered) * ONE = o.badDebt * ONE - o.covered * ONE := Int.sub_mul _ _ _
+    have e3 : o.covered * ONE ≤ o.coveredUp * ONE * ONE := Int.mul_le_mul_of_nonneg_right hup (by omega)
+    rw [esoc] at hc1
+    omega
+
+/-- **liquidation_fee_step** (debt bank of a classic liquidation): the liquidator's position is debited L1, the
+    liquidatee's credited L2 ≤ L1, the whole-token part of the fee L1 − L2 leaves the vault for the insurance
+    vault and the fraction goes to the outstanding insurance fees: the slack falls by less than
+    asv + lsv + 1. Pure arithmetic over the two step bounds. -/
+theorem liquidation_fee_step {c0 c1 c2 l1 l2 asv lsv whole fracp : Int}
+    (hdec : c1 < c0 - l1 * ONE + asv + lsv + 1) (hinc : c2 ≤ c1 + l2 * ONE) (hfee : l1 - l2 = whole * ONE + fracp) :
+    -(whole * ONE * ONE) - (c2 + fracp * ONE - c0) > -(asv + lsv + 1) := by
+  have e : (l1 - l2) * ONE = (whole * ONE + fracp) * ONE := by rw [hfee]
+  have e1 : (l1 - l2) * ONE = l1 * ONE - l2 * ONE := Int.sub_mul _ _ _
+  have e2 : (whole * ONE + fracp) * ONE = whole * ONE * ONE + fracp * ONE := Int.add_mul _ _ _
+  omega
+
+/-- **borrow_fee_step**: a borrow of `amt` tokens with origination fee `fee` debits amt·2^48 + fee, adds `fee`
+    to the fee buckets and pays `amt` tokens: the slack falls by less than asv + lsv + 1. -/
+theorem borrow_fee_step {c0 c1 amt fee asv lsv : Int}
+    (hdec : c1 < c0 - (amt * ONE + fee) * ONE + asv + lsv + 1) :
+    -(amt * ONE * ONE) - (c1 + fee * ONE - c0) > -(asv + lsv + 1) := by
+  have e : (amt * ONE + fee) * ONE = amt * ONE * ONE + fee * ONE := Int.add_mul _ _ _
+  omega
+
+/-! ### every history -/
+
+open Mfi.Props.C02 in
+/-- one bank, all its positions, its liquidity vault, and the allowance spent so far (scale 2^96) -/
+structure Sys where
+  L : Mfi.Props.C02.Ledger
+  vault : Int
+  spent : Int
+
+inductive SOp
+  | open_
+  | deposit (i : Nat) (amt recv : Int)     -- position credited `amt` tokens, vault receives `recv` ≥ amt (C03 prefee_covers)
+  | repay (i : Nat) (amt recv : Int)
+  | withdraw (i : Nat) (amt : Int)         -- position debited and vault pays `amt` tokens
+  | borrow (i : Nat) (amt : Int)
+  | withdrawAll (i : Nat)
+  | repayAll (i : Nat)
+  | close (i : Nat)
+  | accrue (ir : IrCalc)
+  | collect
+
+def opOk : SOp → Prop
+  | .deposit _ amt recv => 0 ≤ amt ∧ amt ≤ recv
+  | .repay _ amt recv => 0 ≤ amt ∧ amt ≤ recv
+  | .withdraw _ amt => 0 ≤ amt
+  | .borrow _ amt => 0 ≤ amt
+  | .accrue ir => FeesOk ir ∧ BaseOk ir
+  | _ => True
+
+def upd (s : Sys) (b' : Bank) (i : Nat) (x' : Balance) : Mfi.Props.C02.Ledger :=
+  { s.L with bank := b', bals := s.L.bals.set i x' }
+
+/-- a failing operation aborts and leaves everything unchanged -/
+def step (s : Sys) (now : Int) : SOp → Sys
+  | .open_ => { s with L := Mfi.Props.C02.step s.L now .open_ }
+  | .deposit i amt recv =>
+    match s.L.bals[i]? with
+    | none => s
+    | some x => match increaseBalance s.L.bank x now (ofInt amt) .depositOnly with
+      | .ok (b', x') => { s with L := upd s b' i x', vault := s.vault + recv }
+      | .error _ => s
+  | .repay i amt recv =>
+    match s.L.bals[i]? with
+    | none => s
+    | some x => match increaseBalance s.L.bank x now (ofInt amt) .repayOnly with
+      | .ok (b', x') => { s with L := upd s b' i x', vault := s.vault + recv }
+      | .error _ => s
+  | .withdraw i amt =>
+    match s.L.bals[i]? with
+    | none => s
+    | some x => match decreaseBalance s.L.bank x now (ofInt amt) .withdrawOnly with
+      | .ok (b', x') => { L := upd s b' i x', vault := s.vault - amt, spent := s.spent + s.L.bank.asv + s.L.bank.lsv + 1 }
+      | .error _ => s
+  | .borrow i amt =>
+    match s.L.bals[i]? with
+    | none => s
+    | some x => match decreaseBalance s.L.bank x now (ofInt amt) .borrowOnly with
+      | .ok (b', x') => { L := upd s b' i x', vault := s.vault - amt, spent := s.spent + s.L.bank.asv + s.L.bank.lsv + 1 }
+      | .error _ => s
+  | .withdrawAll i =>
+    match s.L.bals[i]? with
+    | none => s
+    | some x => match withdrawAll s.L.bank x now with
+      | .ok (b', x', amt) => { s with L := { upd s b' i x' with dustL := s.L.dustL + x.l }, vault := s.vault - amt }
+      | .error _ => s
+  | .repayAll i =>
+    match s.L.bals[i]? with
+    | none => s
+    | some x => match repayAll s.L.bank x now with
+      | .ok (b', x', amt) => { L := { upd s b' i x' with dustA := s.L.dustA + x.a }, vault := s.vault + amt, spent := s.spent + ONE }
+      | .error _ => s
+  | .close i => { s with L := Mfi.Props.C02.step s.L now (.close i) }
+  | .accrue ir =>
+    match accrueInterest s.L.bank ir now with
+    | .ok b' => { s with L := { s.L with bank := b' }, spent := s.spent + accrueAllowance s.L.bank ir now }
+    | .error _ => s
+  | .collect =>
+    match collectFees s.L.bank.feeI s.L.bank.feeG s.L.bank.feeP s.vault with
+    | .ok c => { s with L := { s.L with bank := { s.L.bank with feeI := c.feeI, feeG := c.feeG, feeP := c.feeP } },
+                        vault := s.vault - (c.toInsurance + c.toGroup + c.toProgram) }
+    | .error _ => s
+
+/-- vault minus claims, plus the allowance spent: never decreases -/
+def potential (s : Sys) : Int := slack s.vault s.L.bank + s.spent
+
+
+theorem ofInt_mul (a : Int) : ofInt a * ONE = a * ONE * ONE := rfl
+
+open Mfi.Props.C02 in
+/-- one step: the potential does not fall and the ledger invariant is kept -/
+theorem step_potential (s : Sys) (now : Int) (op : SOp) (hi : Inv s.L) (hop : opOk op) :
+    potential s ≤ potential (step s now op) ∧ Inv (step s now op).L := by
+  have hsv := hi.svpos
+  have hONE := ONE_pos
+  cases op with
+  | open_ => exact ⟨Int.le_refl _, inv_step s.L now .open_ hi trivial⟩
+  | close i =>
+    refine ⟨?_, inv_step s.L now (.close i) hi trivial⟩
+    simp only [step, potential, Mfi.Props.C02.step]
+    cases hget : s.L.bals[i]? with
+    | none => exact Int.le_refl _
+    | some x =>
+      simp only
+      cases hres : closeBalanceOp s.L.bank x now with
+      | error e => exact Int.le_refl _
+      | ok r =>
+        obtain ⟨b', x'⟩ := r
+        simp only
+        have hb : claims b' = claims s.L.bank := by
+          unfold closeBalanceOp at hres
+          obtain ⟨⟨b1, x1⟩, hc, hres⟩ := Res.bind_ok hres
+          dsimp only at hres
+          obtain ⟨_, _, hres⟩ := Res.bind_ok hres
+          obtain ⟨_, _, hres⟩ := Res.bind_ok hres
+          obtain ⟨_, _, hres⟩ := Res.bind_ok hres
+          obtain ⟨_, _, hres⟩ := Res.bind_ok hres
+          obtain ⟨_, _, hres⟩ := Res.bind_ok hres
+          injection hres with hres
+          injection hres with hb _
+          obtain ⟨⟨r, eb1⟩, _⟩ := claim_frame hc
+          rw [← hb, eb1]; rfl
+        unfold slack; rw [hb]
+  | deposit i amt recv =>
+    simp only [step]
+    cases hget : s.L.bals[i]? with
+    | none => exact ⟨Int.le_refl _, hi⟩
+    | some x =>
+      simp only
+      cases hres : increaseBalance s.L.bank x now (ofInt amt) .depositOnly with
+      | error e => exact ⟨Int.le_refl _, hi⟩
+      | ok r =>
+        obtain ⟨b', x'⟩ := r
+        simp only
+        have hx := hi.nonneg x (mem_of_get hget)
+        have hd0 : 0 ≤ ofInt amt := Int.mul_nonneg hop.1 (by omega)
+        have hst := increase_step hres (le_of_lt hsv.1) (le_of_lt hsv.2) hd0 hx.2
+        have hinv := inv_step s.L now (.inc i (ofInt amt) .depositOnly) hi hd0
+        simp only [Mfi.Props.C02.step, hget, hres] at hinv
+        refine ⟨?_, hinv⟩
+        unfold potential slack upd
+        simp only
+        rw [ofInt_mul] at hst
+        have e1 : (s.vault + recv) * ONE * ONE = s.vault * ONE * ONE + recv * ONE * ONE := by ring
+        have e2 : amt * ONE * ONE ≤ recv * ONE * ONE := by
+          have := Int.mul_le_mul_of_nonneg_right hop.2 (by positivity : (0 : Int) ≤ ONE * ONE)
+          linarith only [this]
+        omega
+  | repay i amt recv =>
+    simp only [step]
+    cases hget : s.L.bals[i]? with
+    | none => exact ⟨Int.le_refl _, hi⟩
+    | some x =>
+      simp only
+      cases hres : increaseBalance s.L.bank x now (ofInt amt) .repayOnly with
+      | error e => exact ⟨Int.le_refl _, hi⟩
+      | ok r =>
+        obtain ⟨b', x'⟩ := r
+        simp only
+        have hx := hi.nonneg x (mem_of_get hget)
+        have hd0 : 0 ≤ ofInt amt := Int.mul_nonneg hop.1 (by omega)
+        have hst := increase_step hres (le_of_lt hsv.1) (le_of_lt hsv.2) hd0 hx.2
+        have hinv := inv_step s.L now (.inc i (ofInt amt) .repayOnly) hi hd0
+        simp only [Mfi.Props.C02.step, hget, hres] at hinv
+        refine ⟨?_, hinv⟩
+        unfold potential slack upd
+        simp only
+        rw [ofInt_mul] at hst
+        have e1 : (s.vault + recv) * ONE * ONE = s.vault * ONE * ONE + recv * ONE * ONE := by ring
+        have e2 : amt * ONE * ONE ≤ recv * ONE * ONE := by
+          have := Int.mul_le_mul_of_nonneg_right hop.2 (by positivity : (0 : Int) ≤ ONE * ONE)
+          linarith only [this]
+        omega
+  | withdraw i amt =>
+    simp only [step]
+    cases hget : s.L.bals[i]? with
+    | none => exact ⟨Int.le_refl _, hi⟩
+    | some x =>
+      simp only
+      cases hres : decreaseBalance s.L.bank x now (ofInt amt) .withdrawOnly with
+      | error e => exact ⟨Int.le_refl _, hi⟩
+      | ok r =>
+        obtain ⟨b', x'⟩ := r
+        simp only
+        have hx := hi.nonneg x (mem_of_get hget)
+        have hd0 : 0 ≤ ofInt amt := Int.mul_nonneg hop (by omega)
+        have hst := decrease_step hres (le_of_lt hsv.1) (le_of_lt hsv.2) hd0 hx.1
+        have hinv := inv_step s.L now (.dec i (ofInt amt) .withdrawOnly) hi hd0
+        simp only [Mfi.Props.C02.step, hget, hres] at hinv
+        refine ⟨?_, hinv⟩
+        unfold potential slack upd
+        simp only
+        rw [ofInt_mul] at hst
+        have e1 : (s.vault - amt) * ONE * ONE = s.vault * ONE * ONE - amt * ONE * ONE := by ring
+        omega
+  | borrow i amt =>
+    simp only [step]
+    cases hget : s.L.bals[i]? with
+    | none => exact ⟨Int.le_refl _, hi⟩
+    | some x =>
+      simp only
+      cases hres : decreaseBalance s.L.bank x now (ofInt amt) .borrowOnly with
+      | error e => exact ⟨Int.le_refl _, hi⟩
+      | ok r =>
+        obtain ⟨b', x'⟩ := r
+        simp only
+        have hx := hi.nonneg x (mem_of_get hget)
+        have hd0 : 0 ≤ ofInt amt := Int.mul_nonneg hop (by omega)
+        have hst := decrease_step hres (le_of_lt hsv.1) (le_of_lt hsv.2) hd0 hx.1
+        have hinv := inv_step s.L now (.dec i (ofInt amt) .borrowOnly) hi hd0
+        simp only [Mfi.Props.C02.step, hget, hres] at hinv
+        refine ⟨?_, hinv⟩
+        unfold potential slack upd
+        simp only
+        rw [ofInt_mul] at hst
+        have e1 : (s.vault - amt) * ONE * ONE = s.vault * ONE * ONE - amt * ONE * ONE := by ring
+        omega
+  | withdrawAll i =>
+    simp only [step]
+    cases hget : s.L.bals[i]? with
+    | none => exact ⟨Int.le_refl _, hi⟩
+    | some x =>
+      simp only
+      cases hres : withdrawAll s.L.bank x now with
+      | error e => exact ⟨Int.le_refl _, hi⟩
+      | ok r =>
+        obtain ⟨b', x', amt⟩ := r
+        simp only
+        have hx := hi.nonneg x (mem_of_get hget)
+        have hst := withdraw_all_step hres (le_of_lt hsv.1) hx.1
+        have hinv := inv_step s.L now (.wdAll i) hi trivial
+        simp only [Mfi.Props.C02.step, hget, hres] at hinv
+        refine ⟨?_, hinv⟩
+        unfold potential slack upd
+        simp only
+        have e1 : (s.vault - amt) * ONE * ONE = s.vault * ONE * ONE - amt * ONE * ONE := by ring
+        omega
+  | repayAll i =>
+    simp only [step]
+    cases hget : s.L.bals[i]? with
+    | none => exact ⟨Int.le_refl _, hi⟩
+    | some x =>
+      simp only
+      cases hres : repayAll s.L.bank x now with
+      | error e => exact ⟨Int.le_refl _, hi⟩
+      | ok r =>
+        obtain ⟨b', x', amt⟩ := r
+        simp only
+        have hst := repay_all_step hres
+        have hinv := inv_step s.L now (.repAll i) hi trivial
+        simp only [Mfi.Props.C02.step, hget, hres] at hinv
+        refine ⟨?_, hinv⟩
+        unfold potential slack upd
+        simp only
+        have e1 : (s.vault + amt) * ONE * ONE = s.vault * ONE * ONE + amt * ONE * ONE := by ring
+        omega
+  | accrue ir =>
+    simp only [step]
+    cases hres : accrueInterest s.L.bank ir now with
+    | error e => exact ⟨Int.le_refl _, hi⟩
+    | ok b' =>
+      simp only
+      have hbok : Mfi.Props.C06.BankOk s.L.bank := by
+        refine ⟨le_of_lt hsv.1, le_of_lt hsv.2, ?_, ?_⟩
+        · rw [hi.totalA]
+          have : 0 ≤ sumA s.L.bals := by
+            unfold sumA
+            apply List.sum_nonneg
+            intro y hy
+            obtain ⟨x, hx, rfl⟩ := List.mem_map.mp hy
+            exact (hi.nonneg x hx).1
+          have := hi.dustA0
+          omega
+        · rw [hi.totalL]
+          have : 0 ≤ sumL s.L.bals := by
+            unfold sumL
+            apply List.sum_nonneg
+            intro y hy
+            obtain ⟨x, hx, rfl⟩ := List.mem_map.mp hy
+            exact (hi.nonneg x hx).2
+          have := hi.dustL0
+          omega
+      have hst := accrue_step hres hbok hop.1 hop.2
+      obtain ⟨m1, m2, e1, e2, _⟩ := Mfi.Props.C06.accrue_spec hres hbok
+      refine ⟨?_, ⟨by simp only; rw [e1]; exact hi.totalA, by simp only; rw [e2]; exact hi.totalL, hi.dustA0, hi.dustL0, hi.nonneg,
+        by simp only; exact ⟨by omega, by omega⟩⟩⟩
+      unfold potential slack
+      simp only
+      omega
+  | collect =>
+    simp only [step]
+    cases hres : collectFees s.L.bank.feeI s.L.bank.feeG s.L.bank.feeP s.vault with
+    | error e => exact ⟨Int.le_refl _, hi⟩
+    | ok c =>
+      simp only
+      have := collect_step hres
+      refine ⟨?_, ⟨hi.totalA, hi.totalL, hi.dustA0, hi.dustL0, hi.nonneg, hi.svpos⟩⟩
+      unfold potential
+      simp only
+      omega
+
+def runOps (s : Sys) (ops : List (Int × SOp)) : Sys := ops.foldl (fun s p => step s p.1 p.2) s
+
+open Mfi.Props.C02 in
+/-- **solvency_history**: over EVERY history of position openings, deposits, repayments, withdrawals, borrows,
+    full withdrawals / repayments, balance closures, interest accruals (any rate configuration with
+    non-negative fees and base rate, any clock) and fee collections, by any number of accounts,
+
+        vault·2^96 − (deposits − loans + uncollected fees)  ≥  (its initial value) − (allowance spent),
+
+    where the allowance grows by asv + lsv + 1 per withdrawal or borrow, by 2^48 per full repayment and by
+    accrueAllowance (one ulp of rate on the debt, one ulp per debt share, the per-period lending rate) per
+    accrual — all at scale 2^96 per native token — and by nothing for the other operations. -/
+theorem solvency_history (ops : List (Int × SOp)) :
+    ∀ (s : Sys), Inv s.L → (∀ p ∈ ops, opOk p.2) →
+      potential s ≤ potential (runOps s ops) ∧ Inv (runOps s ops).L := by
+  induction ops with
+  | nil => intro s hi _; exact ⟨Int.le_refl _, hi⟩
+  | cons p rest ih =>
+    intro s hi hok
+    simp only [runOps, List.foldl_cons]
+    obtain ⟨h1, h2⟩ := step_potential s p.1 p.2 hi (hok p (List.mem_cons_self ..))
+    obtain ⟨h3, h4⟩ := ih _ h2 (fun q hq => hok q (List.mem_cons_of_mem _ hq))
+    exact ⟨Int.le_trans h1 h3, h4⟩
+
+/-- a solvent start stays solvent up to the allowance: slack ≥ −spent -/
+theorem solvent_up_to_allowance (ops : List (Int × SOp)) (s : Sys) (hi : Mfi.Props.C02.Inv s.L)
+    (hok : ∀ p ∈ ops, opOk p.2) (h0 : 0 ≤ slack s.vault s.L.bank) (hs : s.spent = 0) :
+    -(runOps s ops).spent ≤ slack (runOps s ops).vault (runOps s ops).L.bank := by
+  have := (solvency_history ops s hi hok).1
+  unfold potential at this
+  omega
+
 end Mfi.Props.C01
